@@ -25,6 +25,32 @@ pub fn exec(op: &str, args: &[&str]) -> String {
 pub fn generate(rng: &mut Rng, tier: &str, shard: usize, nshards: usize, out: &mut dyn FnMut(String)) {
     let total = if tier == "thorough" { 2_000_000 } else { 120_000 };
     let forms = ["DD", "DRD", "RDD", "RDRD", "assign"];
+    // magnitude boundary |a| ~ |b| * 10^gap for EVERY scale gap 0..2000 (the fractional part `x % 1` with a long
+    // fraction is the everyday instance): a = |b|*10^gap + delta with delta in {0, -1, +1, small, 0.1% of a};
+    // a shortcut that decides "|a| < |b|" from bit lengths is wrong exactly here
+    {
+        let mut n = 0usize;
+        let step = if tier == "thorough" { 1 } else { 1 };
+        let mut gap = 0u64;
+        while gap <= 2000 {
+            for ib in [1i64, -1, 7, 1000] {
+                for dk in 0..5u32 {
+                    n += 1;
+                    let keep = n % nshards == shard;
+                    let bmag = BigInt::from(ib.abs());
+                    let top = &bmag * pow10(gap);
+                    let delta: BigInt = match dk { 0 => BigInt::from(0), 1 => BigInt::from(-1), 2 => BigInt::from(1),
+                        3 => BigInt::from(gen_int(rng, 6).magnitude().clone()),
+                        _ => &top / BigInt::from(1 + rng.below(2000)) / BigInt::from(1000) };
+                    let sb = rng.range(-50, 50);
+                    let ia = (top + delta) * BigInt::from(if rng.chance(1, 2) { 1 } else { -1 });
+                    let f = *rng.pick(&forms);
+                    if keep { out(format!("C09\trem\t{}\t{}\t{}", f, show(&dec(ia, sb + gap as i64)), show(&dec(BigInt::from(ib), sb)))); }
+                }
+            }
+            gap += step;
+        }
+    }
     for i in 0..total {
         let keep = i % nshards == shard;
         let max_len = if rng.chance(1, 15) { 2000 } else { 50 };
